@@ -291,6 +291,17 @@ func (C12) Oracle(line, goOut string) string {
 		return ""
 	}
 	w, body0 := c12Do(c)
+	if ok, n, _, _, _, _ := pmtiles.VerifParseTilePath(c.path); ok && n == c.name && w.Code == 200 {
+		// content headers of a tile are a function of the header's tile type and TILE compression
+		wantCE := map[pmtiles.Compression]string{pmtiles.Gzip: "gzip", pmtiles.Brotli: "br", pmtiles.Zstd: "zstd"}[c.h.TileCompression]
+		if got := w.Header().Get("Content-Encoding"); got != wantCE {
+			return fmt.Sprintf("tile with tile compression %d served with Content-Encoding %q, want %q", c.h.TileCompression, got, wantCE)
+		}
+		wantCT := map[pmtiles.TileType]string{pmtiles.Mvt: "application/x-protobuf", pmtiles.Png: "image/png", pmtiles.Jpeg: "image/jpeg", pmtiles.Webp: "image/webp", pmtiles.Avif: "image/avif"}[c.h.TileType]
+		if got := w.Header().Get("Content-Type"); wantCT != "" && got != wantCT {
+			return fmt.Sprintf("tile of type %d served with Content-Type %q, want %q", c.h.TileType, got, wantCT)
+		}
+	}
 	if w.Code == 200 || w.Code == 304 {
 		tag := w.Header().Get("ETag")
 		if tag == "" {
